@@ -13,8 +13,34 @@ SLOW3 = {r"[\x{800}-\x{ffff}]", r"[\x{10000}-\x{10ffff}]", r"\pL", r"\P{Greek}",
 ASCII_OK = {r".", r"(?s).", r"[^a]", r"\w", r"\W", r"\d", r"\D", r"[a-z]", r"[^a-z]", r"(?i)k", r".."}
 
 
+# 3-byte classes whose bounds have different lead bytes: explored over the boundary bytes of the
+# encoding (lead bytes E0 E1 EC ED EE EF, continuation-range edges 80 9F A0 BF and the bounds' own bytes)
+MULTI3 = [
+    (r"[\x{900}-\x{1100}]", "e0e1e2a3a4a5808184859fa0bf"),
+    (r"[\x{4e00}-\x{d000}]", "e3e4e5ecedeeb7b8b9808180819fa0bf"),
+    (r"[\x{ac00}-\x{d7a3}]", "e9eaebecedeeafb0b19d9e9f80a2a3a4bf"),
+    (r"[^\x{e01}-\x{e5b}]", "e0e1b7b8b9bab080819a9b9cbf61"),
+]
+
+# 4-byte ranges of large classes (> 256 members): boundary bytes of the bounds' encodings, L = 4
+#   U+10400 = F0 90 90 80, U+10500 = F0 90 94 80, U+10600 = F0 90 98 80; U+1F300 = F0 9F 8C 80, U+1F64F = F0 9F 99 8F
+MULTI4 = [
+    (r"[\x{10400}-\x{10500}]", "f0f1908f91939495988081bf"),
+    (r"[\x{1F300}-\x{1F64F}]", "f0f19f9ea08b8c8d98999a808e8f90bf"),
+    (r"[\x{3FF00}-\x{40100}]", "f0f1f2bf808183848fbc"),
+]
+
 def items(tier):
     out = []
+    for p, hx in (MULTI4 if tier != "quick" else MULTI4[:2]):
+        out.append(mk("C15", p, "nfa", 4, "hex:" + hx, mode=0))
+        if tier != "quick":
+            out.append(mk("C15", p, "e2e", 4, "hex:" + hx))
+    for p, hx in (MULTI3 if tier != "quick" else MULTI3[:3]):
+        out.append(mk("C15", p, "nfa", 3, "hex:" + hx, mode=0))
+        out.append(mk("C15", p, "e2e", 3, "hex:" + hx))
+        if tier != "quick":
+            out.append(mk("C15", p, "nfa", 3, "hex:" + hx, mode=1))
     for p in K15:
         if tier == "quick" and p not in QUICK:
             continue
